@@ -36,6 +36,12 @@ import (
 	"github.com/ipfs/ipfs-cluster/api"
 	"github.com/ipfs/ipfs-cluster/api/rest"
 
+	libp2p "github.com/libp2p/go-libp2p"
+	crypto "github.com/libp2p/go-libp2p-core/crypto"
+	host "github.com/libp2p/go-libp2p-core/host"
+	peer "github.com/libp2p/go-libp2p-core/peer"
+	peerstore "github.com/libp2p/go-libp2p-core/peerstore"
+	p2phttp "github.com/libp2p/go-libp2p-http"
 	ma "github.com/multiformats/go-multiaddr"
 
 	"verifharness/common"
@@ -445,20 +451,31 @@ type server struct {
 	addr   string
 	rec    *recorder
 	scheme string
+	p2p    *http.Client // set when the case is sent over the libp2p-tunnelled listener
+	p2pURL string
 }
 
-// svTok normalises a server-configuration token: three 0/1 digits <Tracing><HTTPLogFile><TLS>.
+// svTok normalises a server-configuration token: three 0/1 digits <Tracing><HTTPLogFile><TLS>, optionally a fourth
+// digit naming the listener the request is sent to: 0 (or absent) the HTTP listener, 1 the libp2p listener of a host
+// handed to NewAPIWithHost, 2 the libp2p listener of the host the API builds itself from cfg.Libp2pListenAddr /
+// cfg.ID / cfg.PrivateKey (NewAPI).  In both libp2p settings the HTTP listener exists too.
 func svTok(t string) string {
-	if len(t) != 3 {
+	if len(t) != 3 && len(t) != 4 {
 		return "000"
 	}
-	for _, c := range t {
-		if c != '0' && c != '1' {
+	for i, c := range t {
+		if c != '0' && c != '1' && !(i == 3 && c == '2') {
 			return "000"
 		}
 	}
+	if len(t) == 4 && t[3] == '0' {
+		return t[:3]
+	}
 	return t
 }
+
+// p2pSv: the configurations whose requests go over the libp2p listener (systematic sweep in sysCases)
+var p2pSv = []string{"0001", "0002", "1001", "0012"}
 
 var allSv = []string{"000", "100", "010", "001", "110", "101", "011", "111"}
 
@@ -493,7 +510,34 @@ func newServer(creds int, sv string) *server {
 		cfg.TLS = &tls.Config{Certificates: []tls.Certificate{cert}}
 		scheme = "https"
 	}
-	a, err := rest.NewAPI(context.Background(), cfg)
+	var a *rest.API
+	var err error
+	p2pMode := byte('0')
+	if len(sv) == 4 {
+		p2pMode = sv[3]
+	}
+	switch p2pMode {
+	case '1': // a host shared with the caller
+		var h host.Host
+		h, err = libp2p.New(context.Background(), libp2p.ListenAddrs(laddr))
+		if err != nil {
+			panic(err)
+		}
+		a, err = rest.NewAPIWithHost(context.Background(), cfg, h)
+	case '2': // the API's own host, from the configuration
+		priv, _, kerr := crypto.GenerateKeyPair(crypto.Ed25519, 0)
+		if kerr != nil {
+			panic(kerr)
+		}
+		pid, kerr := peer.IDFromPrivateKey(priv)
+		if kerr != nil {
+			panic(kerr)
+		}
+		cfg.ID, cfg.PrivateKey, cfg.Libp2pListenAddr = pid, priv, []ma.Multiaddr{laddr}
+		a, err = rest.NewAPI(context.Background(), cfg)
+	default:
+		a, err = rest.NewAPI(context.Background(), cfg)
+	}
 	if err != nil {
 		panic(err)
 	}
@@ -504,6 +548,21 @@ func newServer(creds int, sv string) *server {
 		panic(fmt.Sprint("no http address: ", err))
 	}
 	s := &server{api: a, addr: addrs[0], rec: r, scheme: scheme}
+	if p2pMode != '0' {
+		if a.Host() == nil {
+			panic("libp2p listener asked for, but the API has no host")
+		}
+		ch, err := libp2p.New(context.Background(), libp2p.NoListenAddrs)
+		if err != nil {
+			panic(err)
+		}
+		ch.Peerstore().AddAddrs(a.Host().ID(), a.Host().Addrs(), peerstore.PermanentAddrTTL)
+		tr := &http.Transport{}
+		tr.RegisterProtocol("libp2p", p2phttp.NewTransport(ch))
+		s.p2p = &http.Client{Timeout: 20 * time.Second, Transport: tr,
+			CheckRedirect: func(*http.Request, []*http.Request) error { return http.ErrUseLastResponse }}
+		s.p2pURL = "libp2p://" + peer.Encode(a.Host().ID())
+	}
 	// wait until it serves
 	for i := 0; i < 200; i++ {
 		resp, err := insecureClient.Get(scheme + "://" + s.addr + "/nope-startup")
@@ -600,6 +659,10 @@ func opsTok(ops []string) string {
 func (h *harness) exec(c reqCase) (string, error) {
 	s := h.server(c.creds, c.sv)
 	u := s.scheme + "://" + s.addr + c.rawPath()
+	hc := h.hc
+	if s.p2p != nil {
+		u, hc = s.p2pURL+c.rawPath(), s.p2p
+	}
 	if q := c.rawQuery(); q != "" {
 		u += "?" + q
 	}
@@ -621,7 +684,7 @@ func (h *harness) exec(c reqCase) (string, error) {
 		w := &expWindow{from: time.Now(), durs: expireInDurs}
 		s.rec.reset(c.rpc, w)
 		before := panics.count()
-		resp, err := h.hc.Do(req)
+		resp, err := hc.Do(req)
 		if err != nil {
 			time.Sleep(20 * time.Millisecond)
 			if panics.count() > before {
@@ -913,6 +976,9 @@ func authFor(r *common.Rng, creds int) string {
 func svFor(r *common.Rng) string {
 	if r.Chance(2, 3) {
 		return "000"
+	}
+	if r.Chance(1, 4) {
+		return p2pSv[r.Intn(len(p2pSv))] // over the libp2p-tunnelled listener
 	}
 	return allSv[1+r.Intn(len(allSv)-1)]
 }
@@ -1257,7 +1323,7 @@ func sysCases() []reqCase {
 	// every other server configuration (tracing / access-log file / TLS): every template with its method, a wrong
 	// method, an unknown path, a preflight and an undecodable option, in the credential situations that matter
 	svSits := []sit{{0, "n"}, {1, "n"}, {1, "m0"}, {1, "b.nobody.e"}, {1, "b.u0.wrong"}, {1, "b.u0.p0"}, {2, "b.u1.p1"}, {2, "b.u0.p0"}}
-	for _, sv := range allSv[1:] {
+	for _, sv := range append(append([]string{}, allSv[1:]...), p2pSv...) {
 		for ti, t := range templates {
 			for _, a := range svSits {
 				c := reqCase{sv: sv, creds: a.cr, auth: a.au, method: t.method, segs: fill(r.Fork(uint64(9000+ti)), t, -1), rpc: "ok", body: "-"}
